@@ -30,6 +30,7 @@ type DefaultEngine struct {
 	dbg        Debug
 	first      resource.EntryFunc
 	initd      bool
+	loaded     bool // the session has been loaded into the persister (or created through it)
 	exit       string
 	exiting    bool
 	execd      bool
@@ -262,6 +263,9 @@ func (en *DefaultEngine) ensurePersist() error {
 		en.st.UseDebug()
 	}
 	logg.Tracef("set persister", "st", st, "cac", cac, "session", en.cfg.SessionId, "persister", en.pe)
+	if err == nil {
+		en.loaded = true
+	}
 	return err
 }
 
@@ -396,7 +400,13 @@ func (en *DefaultEngine) runFirst(ctx context.Context) (bool, error) {
 func (en *DefaultEngine) Finish(ctx context.Context) error {
 	var perr error
 	if !en.initd {
-		return nil
+		// a request that ended before the engine was ready (input refused, blocked by the
+		// pre-VM function) has still loaded the session into the persister: hand it back,
+		// or a persister that is reused keeps it for whoever comes next
+		if en.pe == nil || !en.loaded || en.pe.Invalid() {
+			return nil
+		}
+		return en.pe.Save(en.cfg.SessionId)
 	}
 	if en.pe != nil {
 		perr = en.pe.Save(en.cfg.SessionId)
